@@ -74,7 +74,7 @@ def gen_program(rng, family, tier):
 
 
 def swarm_config(rng, policies, transports=("asyncio",), stores=("file",), max_nodes=1, ttls=(600, 3600, 86400),
-                 tzs=("UTC0", "SIM-05:30", "SIM+03:00", "SIM-12:45")):
+                 tzs=("UTC0", "SIM-05:30", "SIM+03:00", "SIM-12:45", "SIM+03:30")):
     cfg = policy_cfg(rng.choice(policies))
     cfg["transport"] = rng.choice(transports)
     cfg["store"] = rng.choice(stores)
